@@ -1,3 +1,4 @@
+import math
 import operator
 from .transform import BlockPass
 from .. import ir
@@ -53,16 +54,39 @@ class ConstantFolder(BlockPass):
         if isinstance(value, ir.Const):
             return True
         elif isinstance(value, ir.Cast):
-            return self.is_const(value.src)
+            if not self.is_const(value.src):
+                return False
+            src = self.eval_const(value.src).value
+            # Conversion of inf / nan to integer has no defined result:
+            return not (
+                isinstance(src, float)
+                and not math.isfinite(src)
+                and not isinstance(value.ty, ir.FloatingPointTyp)
+            )
         elif isinstance(value, ir.Binop):
             return (
                 value.operation in self.ops
                 and value.ty.is_integer
                 and self.is_const(value.a)
                 and self.is_const(value.b)
+                and self.is_defined(value)
             )
         else:
             return False
+
+    def is_defined(self, value):
+        """Check that the operation has a defined result at run time.
+
+        Division by zero and shifts by a negative amount or by more bits
+        than the type has are left alone instead of being evaluated here.
+        """
+        b = self.eval_const(value.b).value
+        if value.operation == "%":
+            return b != 0
+        elif value.operation in ("<<", ">>"):
+            return 0 <= b < value.ty.bits
+        else:
+            return True
 
     def eval_const(self, value):
         """Evaluate expression, and return a new const instance"""
